@@ -200,6 +200,11 @@ func (x *SExec) Step(i int, op SOp) *Fail {
 	if m := takeFatal(); m != "" {
 		return sfail("stack|"+op.K+"|process-exit", m, "C18", "C14")
 	}
+	if m := takeDPPanic(); m != "" {
+		// I/O inside the volume's range, on a replica the controller attached:
+		// it must be served (C01/C16) and a rebuilt replica must be its source's equal (C07)
+		return sfail("replica|data-path-panic|after="+op.K, m, "C16", "C01", "C07")
+	}
 	x.noteRO()
 	return x.Verify()
 }
@@ -369,6 +374,14 @@ func (x *SExec) apply(i int, op SOp) *Fail {
 			ca, cb := st.Nodes[src].S.Replica().GetRevisionCounter(), st.Nodes[n].S.Replica().GetRevisionCounter()
 			if ca != cb {
 				return sfail("promote|counter-mismatch", fmt.Sprintf("promoted n%d has revision counter %d, source n%d has %d", n, cb, src, ca), "C07", "C10")
+			}
+		}
+		// C07/C16: the promoted replica has the volume's size (in memory and in volume.meta)
+		if rs, rn := st.Nodes[src].S.Replica(), st.Nodes[n].S.Replica(); rs != nil && rn != nil {
+			vs, e1 := readVolMeta(st.Nodes[src].Dir)
+			vn, e2 := readVolMeta(st.Nodes[n].Dir)
+			if rs.Info().Size != rn.Info().Size || (e1 == nil && e2 == nil && vs.Size != vn.Size) {
+				return sfail("promote|size-differs", fmt.Sprintf("promoted n%d has size %d (volume.meta %d), source n%d has %d (volume.meta %d)", n, rn.Info().Size, vn.Size, src, rs.Info().Size, vs.Size), "C07", "C16")
 			}
 		}
 	case "write", "sync", "unmap":
